@@ -69,7 +69,6 @@ func findPageHashes(b []byte, depth int) (oid string, blob []byte) {
 
 type peOpts struct {
 	presign  bool // input already carries a relic signature by another key
-	junkCert bool // input carries a certificate table written by the generator (garbage PKCS#7)
 	ossl     bool
 }
 
